@@ -760,7 +760,8 @@ def make_page(context, root_box, page_type, resume_at, page_number,
                 item = target_collector.target_lookup_items.get(
                     anchor_name, None)
                 page_maker_index = item.page_maker_index
-                if page_maker_index >= 0 and anchor_name in cached_anchors:
+                if (page_maker_index is not None and
+                        page_maker_index < len(page_maker)):
                     page_maker[page_maker_index][-1]['pages_wanted'] = True
                 # 'content_changed' is triggered in
                 # targets.cache_target_page_counters()
